@@ -180,6 +180,12 @@ def search(run, info):
     texts.append(("edge", "﻿PROGRAM p END_PROGRAM"))
     texts.append(("edge", "(* Ã© *) x"))   # 1252 bytes that are valid UTF-8: the guard excludes the 1252 form
     texts.append(("edge", ""))
+    # a character at the very end (and at the very start) that file formats of old give a meaning: end-of-file marks, NUL, form
+    # feed, a lone CR, and characters whose UTF-16 form ends (or starts) in such a byte -- whatever is done about them must be done
+    # to the text, not to the bytes
+    for ch in ("\x1a", "\x00", "\x04", "\x0c", "\r", "\x1a\x1a", "\u201a", "\u1a00", "\u001a\n", "\u0100", "\ufeff"):
+        texts.append(("edge-end", "PROGRAM pz\nVAR x : INT; END_VAR\n(* é *) x := 1;\nEND_PROGRAM\n" + ch))
+        texts.append(("edge-start", ch + "PROGRAM pz\nVAR x : INT; END_VAR\n(* é *) x := 1;\nEND_PROGRAM\n"))
     # long files: the first character outside ASCII far into the file, and a multi-byte character across the power-of-two
     # offsets a reader might buffer at
     tail = "PROGRAM plong\nVAR x : INT; s : STRING; END_VAR\ns := 'Größe prüfen'; (* é *) y := 1;\nEND_PROGRAM\n"
